@@ -40,6 +40,11 @@ PROPS = {
         "explanation": "the default Object::find body is proved equal to path_lookup (descend objects, name[i] = i-th array element, any missing/ill-shaped step => None) for keys of any length; Nested object/scalar arms proved in solve_expression",
         "assumptions": ["str::split / Array::iter().nth / Object::get wrappers (trusted specs)", "index text parsing (strip_suffix + parse::<usize>) uninterpreted", "sync-feature copy of find is textually identical (diffed by the check)", "Nested-over-array arm is a hole"],
     },
+    "C01": {
+        "units": {"optimiser": ["coalesce", "lemma_congruences", "lemma_nested_congruence", "lemma_nested_array_congruence", "lemma_match_coalesce"]},
+        "explanation": "coalesce is proved to preserve sem3 for every document (three-valued equality, so also under negation), to remove every identifier (so clearing the identifier table is sound) and never to hit its expect()",
+        "assumptions": ["shake, rewrite and matrix passes are not yet under contract (see DESIGN.md C01)"],
+    },
     "C06": {
         "units": {"solver": SOLVER_CORE},
         "explanation": "and/or/not/all/of arms of the real solve_expression are proved equal to the truth-table spec (and3/or3/not3/of3 over sems) for groups of any length",
